@@ -55,4 +55,13 @@ PROPS = {
         ],
         "fuzz": [{"mod": "h23", "pkg": "c11", "target": "FuzzC11_Unmarshal", "secs": 300}],
     },
+    "C12": {
+        "level": "exploration",
+        "units": [
+            R("h23", "c12", "TestC12_Crypto", (20000, 4), (1000000, 16, 3000)),
+            E("h23", "c12", "TestC12_CryptoExhaustive", (4,), (16, 3000)),
+            R("h23", "c12", "TestC12_Keys", (10000, 2), (300000, 8, 3000)),
+            R("h23", "c12", "TestC12_Index", (2000, 4), (60000, 16, 3000)),
+        ],
+    },
 }
